@@ -135,6 +135,15 @@ def budget(ctx, st, scope, quick, thorough):
     return thorough if ctx.tier == "thorough" or scope in st.scopes else quick
 
 
+def time_box(ctx, st, share, least):
+    """absolute deadline of a simulator phase: `share` of the wall-time target of the tier, but never less than `least`
+    seconds from now (so that the most discriminating cases, which come first, always run).  None = no box (thorough)."""
+    if ctx.tier == "thorough":
+        return None
+    target = float(os.environ.get("VERIF_C11_TARGET_S", "420" if "sim" in st.scopes else "200"))
+    return max(time.time() + least, ctx.t0 + target * share)
+
+
 UNARY = ("Not", "Next", "Eventually", "Always")
 BINARY = ("And", "Or", "Implies", "Until")
 ATOM_NAMES = "ABC"
@@ -503,6 +512,9 @@ def program(placement, fsrc, n, d=0, s=0):
     if placement == "sub-for":        # … stopped by the time limit of `do … for n steps` (at the start of the step after its last)
         return head + ("scenario Sub():\n    setup:\n" f"        require {fsrc}\n    compose:\n" + forever
                        + main + "    compose:\n" + w(d) + f"        do Sub() for {n} steps\n"), "Main"
+    if placement == "sub-after":      # … stopped by its own `terminate after` (the step of the limit belongs to its trace)
+        return head + ("scenario Sub():\n    setup:\n" f"        require {fsrc}\n        terminate after {n - 1} steps\n    compose:\n"
+                       + forever + main + "    compose:\n" + w(d) + "        do Sub()\n"), "Main"
     if placement == "dyn-open":
         return head + ("scenario Sub():\n    compose:\n" + w(s) + f"        require {fsrc}\n" + forever
                        + main + "    compose:\n" + w(d) + "        do Sub()\n"), "Main"
@@ -583,7 +595,7 @@ def fmt_outcome(o):
     return o[0] if len(o) == 1 else f"{o[0]}{o[1]}" if o[0] in ("acc", "rej") else f"crash:{o[1]}"
 
 
-SUB_LIKE = ("sub", "sub-open", "sub-for")          # requirement in the setup block of a sub-scenario started after d steps
+SUB_LIKE = ("sub", "sub-open", "sub-for", "sub-after")          # requirement in the setup block of a sub-scenario started after d steps
 DYN_LIKE = ("dyn", "dyn-open")                     # requirement executed by the compose block of such a sub-scenario after s steps
 
 
@@ -670,17 +682,43 @@ def use_fresh_parser(ctx):
     return True
 
 
-def pool_map(ctx, fn, jobs):
-    """fn(job) -> list of results; results concatenated in job order"""
+def pool_map(ctx, fn, jobs, deadline=None):
+    """fn(job) -> list of results; results concatenated in job order.
+
+    `deadline` (absolute time.time() value) time-boxes the phase: the jobs are taken in order, the ones not finished when
+    the deadline passes are dropped and their results are None (a cut-off is reported in the notes, never as a violation).
+    Worker count: VERIF_JOBS (default 8)."""
     if not jobs:
         return []
-    nproc = min(int(os.environ.get("VERIF_JOBS", "14")), len(jobs))
+    nproc = min(int(os.environ.get("VERIF_JOBS", "8")), len(jobs))
+    parts = []
     if nproc <= 1:
-        parts = [fn(j) for j in jobs]
+        for j in jobs:
+            if deadline is not None and time.time() > deadline and parts:
+                break
+            parts.append(fn(j))
     else:
-        with multiprocessing.get_context("fork").Pool(nproc) as pool:
-            parts = pool.map(fn, jobs, chunksize=1)
-    return [r for part in parts for r in part]
+        pool = multiprocessing.get_context("fork").Pool(nproc)
+        try:
+            it = pool.imap(fn, jobs, chunksize=1)
+            for _ in jobs:
+                try:
+                    if deadline is None:
+                        parts.append(it.next())
+                    else:
+                        parts.append(it.next(timeout=max(1.0, deadline - time.time()) if parts else None))
+                except multiprocessing.TimeoutError:
+                    break
+        finally:
+            pool.terminate()
+            pool.join()
+    out = [r for part in parts for r in part]
+    missing = sum(len(j) for j in jobs[len(parts):])
+    if missing:
+        ctx.extra.setdefault("time_boxed", {})[getattr(fn, "__name__", "?")] = {"done": len(out), "cut_off": missing}
+        ctx.notes.append(f"time box: {missing} of {len(out) + missing} generated cases of {getattr(fn, '__name__', '?')} were not run "
+                         "(machine slow); not run = not counted, never a violation")
+    return out + [None] * missing
 
 
 def chunks(items, size):
@@ -719,7 +757,7 @@ def monitor_level(ctx, st):
     fs = enum_formulas(2, natoms)
     extra = []
     rng = random.Random(ctx.rng.getrandbits(32))
-    want = budget(ctx, st, "monitor", 150, 4000)
+    want = budget(ctx, st, "monitor", 100, 4000)
     seen = set(fs)
     while len(extra) < want:
         f = random_formula(rng, rng.choice([3, 3, 4]), natoms)
@@ -727,13 +765,20 @@ def monitor_level(ctx, st):
             seen.add(f)
             extra.append(f)
     fs3 = []
-    while len(fs3) < budget(ctx, st, "monitor", 40, 400):
+    while len(fs3) < budget(ctx, st, "monitor", 30, 400):
         f = random_formula(rng, 3, 3)
         if ("Atom", 2) in set(_subs(f)) and f not in seen:
             seen.add(f)
             fs3.append(f)
     st.witness = {}
-    for forms, ln, k in [(fs + extra, length, natoms), (fs3, budget(ctx, st, "monitor", 3, 4), 3)]:
+    sweeps = [(fs + extra, length, natoms), (fs3, budget(ctx, st, "monitor", 3, 4), 3)]
+    if length == 4:
+        # quick tier: every formula of depth <= 2 x all 64 traces of length 3; all 256 traces of length 4 for the formulas of
+        # depth <= 1, a seeded part of depth 2 and the deeper ones (the full sweep at length 4/5 is the escalated budget)
+        deep = [f for f in fs if depth_of(f) == 2]
+        rng.shuffle(deep)
+        sweeps = [(fs, 3, natoms), ([f for f in fs if depth_of(f) <= 1] + sorted(deep[:400], key=tokstr) + extra, 4, natoms), sweeps[1]]
+    for forms, ln, k in sweeps:
         t0 = time.time()
         per = max(2, len(forms) // 84)
         real = pool_map(ctx, _w_monitor, [(c, ln, k) for c in chunks(forms, per)])
@@ -748,6 +793,7 @@ def monitor_level(ctx, st):
             rv, sp, wit = real[idx]
             ctx.case(("mon", k, ln, toks(f)), nontrivial=f[0] != "Atom")
             ctx.evaluations += ntr * ln - 1
+            ctx.hist("monitor_sweep", f"{k} atoms x {ln} steps")
             ctx.hist("formula_depth", depth_of(f))
             ctx.hist("formula_root", f[0])
             ctx.hist("fragment", "exact+final" if flags[f][1] else "exact-only" if flags[f][0] else "outside")
@@ -803,8 +849,8 @@ def syntax_level(ctx, st, fs):
     cand = {}
     pool = list(fs)
     rng.shuffle(pool)
-    pool = [f for f in fs if depth_of(f) <= 1] + pool[: budget(ctx, st, "syntax", 350, 2810)]
-    pool += [random_formula(rng, 3, 2) for _ in range(budget(ctx, st, "syntax", 60, 1500))]
+    pool = [f for f in fs if depth_of(f) <= 1] + pool[: budget(ctx, st, "syntax", 220, 2810)]
+    pool += [random_formula(rng, 3, 2) for _ in range(budget(ctx, st, "syntax", 40, 1500))]
     for f in pool:
         vs = {tuple(show(f)), tuple(show(f, full=True))}
         for _ in range(budget(ctx, st, "syntax", 2, 4)):
@@ -812,7 +858,7 @@ def syntax_level(ctx, st, fs):
         cand.setdefault(f, set()).update(vs)
     alph = ["A", "B", "(", ")", "not", "and", "or", "implies", "until", "next", "eventually", "always"]
     noise = set()
-    while len(noise) < budget(ctx, st, "syntax", 400, 6000):
+    while len(noise) < budget(ctx, st, "syntax", 300, 6000):
         n = rng.randint(1, 9)
         c = tuple(rng.choice(alph) for _ in range(n))
         d, ok = 0, True
@@ -873,8 +919,8 @@ def syntax_level(ctx, st, fs):
     return denote
 
 
-PLACEMENTS = ("top", "setup", "sub", "dyn", "top-after", "dyn-top", "sub-open", "sub-for", "dyn-open")
-OP_OF = {"top": "run", "setup": "run", "top-after": "run", "sub": "rts", "sub-open": "rts", "sub-for": "rts",
+PLACEMENTS = ("top", "setup", "sub", "dyn", "top-after", "sub-after", "dyn-top", "sub-open", "sub-for", "dyn-open")
+OP_OF = {"top": "run", "setup": "run", "top-after": "run", "sub": "rts", "sub-open": "rts", "sub-for": "rts", "sub-after": "rts",
          "dyn": "dyn", "dyn-top": "dyn", "dyn-open": "dyn"}
 
 
@@ -903,23 +949,32 @@ def end_to_end(ctx, st, fs, denote):
     rng.shuffle(rest)
     # formulas that discriminate the rv_ltl defects / the theorems' fragments / the run-time paths are always included
     A, B = ("Atom", 0), ("Atom", 1)
-    special = [("Next", ("Until", A, B)), ("Until", A, ("Or", ("Eventually", B), A)),
+    # (the simplest ones first: when the time box cuts the phase short, what has run still covers every operator of the
+    # rule in every placement)
+    special = [("Always", A), ("Eventually", A), ("Until", A, B), ("Next", A), ("Implies", A, B),
+               ("Next", ("Until", A, B)), ("Until", A, ("Or", ("Eventually", B), A)),
                ("Always", ("Implies", A, ("Next", B))), ("Or", ("Until", A, B), ("Always", ("And", A, ("Not", B)))),
-               ("Always", A), ("Eventually", A), ("Until", A, B), ("Not", ("Next", ("Until", A, B))),
-               ("Implies", A, B), ("Implies", ("Always", A), B), ("Next", A), ("Eventually", ("Always", A)),
+               ("Not", ("Next", ("Until", A, B))), ("Implies", ("Always", A), B), ("Eventually", ("Always", A)),
                ("And", ("Implies", A, B), ("Or", ("Not", A), B))]
     special = [f for f in special if f in denote or _try_denote(st, denote, f)]
-    chosen = list(dict.fromkeys(special + base + rest[: budget(ctx, st, "sim", 30, 1200)]))
+    chosen = list(dict.fromkeys(special + base + rest[: budget(ctx, st, "sim", 20, 1200)]))
+    quick = budget(ctx, st, "sim", True, False)
     jobs, meta = [], []
     for f in chosen:
         strs = denote[f]
         for placement in PLACEMENTS:
-            rare = placement in ("top-after", "dyn-top", "sub-open", "sub-for", "dyn-open")
-            if rare and rng.random() > (0.15 if f not in special else 0.5):
+            rare = placement in ("top-after", "sub-after", "dyn-top", "sub-open", "sub-for", "dyn-open")
+            if f in special:
+                # every way a scenario can end / a requirement can come into force, for the discriminating formulas
+                if rare and placement not in ("top-after", "sub-after") and rng.random() > 0.5:
+                    continue
+            elif rare and rng.random() > 0.15:
+                continue
+            elif not rare and quick and depth_of(f) <= 1 and rng.random() > 0.5:
                 continue
             ts = rng.choice(strs[:4])
             n = rng.choice([4, 3, 3, 2, 1]) if f not in special else rng.choice([3, 3, 3, 4])
-            if placement == "top-after":
+            if placement in ("top-after", "sub-after"):
                 n = max(n, 2)
             d = rng.choice([0, 1, 2]) if placement in SUB_LIKE + DYN_LIKE else 0
             s = rng.choice([0, 0, 1, 2]) if placement in DYN_LIKE + ("dyn-top",) else 0
@@ -931,7 +986,7 @@ def end_to_end(ctx, st, fs, denote):
             jobs.append((placement, list(ts), n, d, s, codes, junk))
             meta.append(f)
     per = max(1, len(jobs) // 64)
-    results = pool_map(ctx, _w_e2e, chunks(jobs, per))
+    results = pool_map(ctx, _w_e2e, chunks(jobs, per), deadline=time_box(ctx, st, 0.8, 70))
     # Lean predictions
     lines, vlines = [], []
     for (placement, ts, n, d, s, codes, junk), f in zip(jobs, meta):
@@ -949,6 +1004,9 @@ def end_to_end(ctx, st, fs, denote):
         if placement == "top" and n < 2:
             placement = "setup"
         off = offset_of(placement, d, s)
+        if res is None:                      # cut off by the time box: not run, not counted
+            ctx.hist("placement", "(not run: time box)")
+            continue
         ctx.case(("e2e", placement, ts, n, d, s), nontrivial=f[0] != "Atom")
         ctx.hist("placement", placement)
         ctx.hist("run_length", n)
@@ -1030,7 +1088,7 @@ def multi_level(ctx, st, denote):
     temporal.sort(key=tokstr)
     small = [f for f in temporal if depth_of(f) == 1]
     jobs, meta = [], []
-    for _ in range(budget(ctx, st, "sim", 36, 600)):
+    for _ in range(budget(ctx, st, "sim", 24, 600)):
         n = rng.choice([2, 3, 3])
         top = rng.random() < 0.4
         d = 0 if top else rng.choice([0, 1, 2])
@@ -1050,7 +1108,7 @@ def multi_level(ctx, st, denote):
         placement = "multi-top" if top else "multi-sub"
         jobs.append((placement, ([r[2] for r in inits], [(r[0], r[2]) for r in adds]), n, d, 0, codes, junk))
         meta.append((inits, adds))
-    results = pool_map(ctx, _w_e2e, chunks(jobs, max(1, len(jobs) // 32)))
+    results = pool_map(ctx, _w_e2e, chunks(jobs, max(1, len(jobs) // 32)), deadline=time_box(ctx, st, 0.95, 30))
     lines = []
     for (placement, _, n, d, s, codes, junk), (inits, adds) in zip(jobs, meta):
         segs = [f"i {tokstr(r[1])}" for r in inits] + [f"{r[0]} {tokstr(r[1])}" for r in adds]
@@ -1066,6 +1124,9 @@ def multi_level(ctx, st, denote):
         off = d if placement == "multi-sub" else 0
         scene_pred = [scene_out[f"C11 run 2 {n} {tokstr(r[1])}"].split(" ") for r in inits] if placement == "multi-top" and scene_out else []
         desc = "; ".join([f"setup: require {untok(r[2])}" for r in inits] + [f"step {r[0]}: require {untok(r[2])}" for r in adds])
+        if res is None:                      # cut off by the time box
+            ctx.hist("placement", "(not run: time box)")
+            continue
         ctx.case(("multi", placement, desc, n, d))
         ctx.hist("placement", placement)
         ctx.hist("multi_requirements", len(inits) + len(adds))
